@@ -744,6 +744,11 @@ pub fn op_add(a: &mut Allocator, mut input: NodePtr, max_cost: Cost, flags: Clvm
 
     // Slow path: fall back to bignum arithmetic
     let mut rng = rand::rng();
+    #[cfg(feature = "verif-hooks")]
+    let mut rng = {
+        let _os_rng = &mut rng;
+        crate::verif::SimRng::new(crate::verif::Site::AddSplit)
+    };
     // acc is not used for the new cost model
     let mut acc = [Number::from(0), Number::from(0)];
     let mut small_acc: Number = 0.into();
@@ -859,6 +864,11 @@ pub fn op_subtract(
 
     // Slow path: fall back to bignum arithmetic
     let mut rng = rand::rng();
+    #[cfg(feature = "verif-hooks")]
+    let mut rng = {
+        let _os_rng = &mut rng;
+        crate::verif::SimRng::new(crate::verif::Site::SubSplit)
+    };
     let mut acc = [Number::from(0), Number::from(0)];
     let mut small_acc: Number = 0.into();
     let mut is_first = true;
